@@ -66,6 +66,7 @@ type member struct {
 	// mayFail: the generator may refuse this schema (a loud failure satisfies the property); what is checked is that IF it reports
 	// success the emitted code enforces the schema
 	mayFail bool
+	noTwin  bool // internal: this member is already the default-mode twin of another
 }
 
 // runMember explores a member and hands each world to check; bookkeeping of
@@ -75,6 +76,22 @@ func runMember(c *core.Ctx, mb member, rules map[string]bool, budget int, check 
 }
 
 func runMemberOpt(c *core.Ctx, mb member, rules map[string]bool, budget int, sized bool, check func(w *fam.World, fm *fam.FileModel) []fam.Issue) {
+	// The CLI default is WITHOUT --extra-imports (JSON unmarshalers only); the drivers' base configuration has it on (both methods).
+	// A cross-section of every driver's members (one in four, chosen by name; all of them in the thorough tier) is therefore run a
+	// second time in the CLI's default mode, with the same rules and the same oracle.
+	if mb.cfg.ExtraImports && !mb.noTwin && !c.NoDefaultModeTwin {
+		h := 0
+		for i := 0; i < len(mb.name); i++ {
+			h = h*31 + int(mb.name[i])
+		}
+		if c.Tier == "thorough" || (h&0x7fffffff)%4 == 0 {
+			tw := mb
+			tw.cfg.ExtraImports = false
+			tw.noTwin = true
+			c.Counts["default_mode_twins"]++
+			defer runMemberOpt(c, tw, rules, budget, sized, check)
+		}
+	}
 	if d := os.Getenv("VCHECK_DUMP"); d != "" && strings.Contains(mb.name, d) {
 		// developer aid: print the emitted text of the first world of the named member
 		if ws, _ := fam.Run(c.Prog, mb.cfg, mb.root, budget, nil); len(ws) > 0 && ws[0].Files["out.go"] != nil {
